@@ -127,7 +127,11 @@ func HandleClient(h *Client) mux.Option {
 // Client is an xmpp.Handler that handles MUC payloads from a client
 // perspective.
 type Client struct {
+	// managed holds the channels we are an occupant of and joining the channels
+	// with a join request in flight; both are keyed by our address in the room
+	// (the occupant address) and protected by managedM.
 	managed  map[string]*Channel
+	joining  map[string]*Channel
 	managedM sync.Mutex
 
 	// HandleInvite will be called if we receive a mediated MUC invitation.
@@ -184,9 +188,11 @@ func (c *Client) HandlePresence(p stanza.Presence, r xmlstream.TokenReadEncoder)
 	// the channel.
 	c.managedM.Lock()
 	defer c.managedM.Unlock()
-	channel, ok := c.managed[p.From.String()]
+	from := p.From.String()
+	channel, joined := c.managed[from]
+	pending, joining := c.joining[from]
 	// TODO: what do we do with presences that aren't managed?
-	if !ok {
+	if !joined && !joining {
 		return nil
 	}
 	d := xml.NewTokenDecoder(r)
@@ -198,30 +204,45 @@ func (c *Client) HandlePresence(p stanza.Presence, r xmlstream.TokenReadEncoder)
 
 	switch p.Type {
 	case stanza.AvailablePresence:
-		// If any join functions are pending awaiting the join to complete, unblock
-		// them.
-	selectJoin:
-		select {
-		case c := <-channel.join:
+		// If a join function is pending awaiting a join as this occupant to
+		// complete, unblock it.
+		if joining {
+			// The joining function does not touch the address until we hand over.
+			previous := pending.addr.String()
+		selectJoin:
 			select {
-			case c.j <- p.From:
-				return nil
-			case <-c.done:
-				// If the call to Join has timed out, try again to see if we have a
-				// subsequent call to Join (and if not, send the call to the user
-				// presence handler for the user to take care of).
-				goto selectJoin
+			case j := <-pending.join:
+				select {
+				case j.j <- p.From:
+					// We are an occupant under this address now (and, if the nickname
+					// was changed, not under the previous one anymore).
+					delete(c.joining, from)
+					if c.managed[previous] == pending {
+						delete(c.managed, previous)
+					}
+					c.managed[from] = pending
+					return nil
+				case <-j.done:
+					// If the call to Join has timed out, try again to see if we have a
+					// subsequent call to Join (and if not, send the call to the user
+					// presence handler for the user to take care of).
+					goto selectJoin
+				}
+			default:
 			}
-		default:
 		}
 		if decodedPresence.X.XMLName.Space == NSUser && c.HandleUserPresence != nil {
 			c.HandleUserPresence(decodedPresence.Presence, decodedPresence.X.Item)
 		}
 	case stanza.UnavailablePresence:
-		delete(c.managed, channel.addr.String())
-		select {
-		case channel.depart <- struct{}{}:
-		default:
+		// This only ends the membership; a join request in flight for the same
+		// address stays registered.
+		if joined {
+			delete(c.managed, from)
+			select {
+			case channel.depart <- struct{}{}:
+			default:
+			}
 		}
 	}
 	return nil
@@ -241,8 +262,6 @@ func (c *Client) Join(ctx context.Context, room jid.JID, s *xmpp.Session, opt ..
 // presence.
 // Changing the presence type has no effect.
 func (c *Client) JoinPresence(ctx context.Context, p stanza.Presence, s *xmpp.Session, opt ...Option) (*Channel, error) {
-	c.managedM.Lock()
-
 	channel := &Channel{
 		addr:    p.To,
 		client:  c,
@@ -251,12 +270,8 @@ func (c *Client) JoinPresence(ctx context.Context, p stanza.Presence, s *xmpp.Se
 		join:   make(chan joinCtx, 1),
 		depart: make(chan struct{}),
 	}
-	if c.managed == nil {
-		c.managed = make(map[string]*Channel)
-	}
-	c.managed[p.To.String()] = channel
-	c.managedM.Unlock()
 
+	// The channel registers itself for the address it actually requests.
 	err := channel.JoinPresence(ctx, p, opt...)
 	return channel, err
 }
